@@ -322,6 +322,12 @@ def conclude(pid, tier, findings, cases_by_id, level, coverage, assumptions, t0)
     """Print KNOWN-FINDING / VIOLATION lines, write evidence, return exit code."""
     known = load_known()
     mine = [f for f in findings if pid in f.get("props", [])]
+    # behaviour the specification covers beyond the listed properties: reported, never a verdict
+    extra = [f for f in findings if any(p.startswith("X-") for p in f.get("props", []))]
+    for f in extra[:5]:
+        print("NOTE: outside the listed properties, implementation and specification differ (%s): %s" % (
+            ",".join(f.get("props", [])), json.dumps(f.get("detail"))[:400]))
+    coverage = dict(coverage, extra_findings_outside_properties=len(extra))
     shown_known = set()
     violations = []
     for f in mine:
